@@ -410,10 +410,7 @@ def cli_path(st, r, texts):
     d = common.scratch()
     env = dict(os.environ)
     env["PYTHONPATH"] = common.REPO
-    # /repo is read-only (no __pycache__): without a bytecode cache every subprocess
-    # recompiles the 2.6 MB cached_parser.py.  The cache is keyed by full source path and
-    # validated by mtime+size, so scratch copies of /repo get their own entries.
-    env["PYTHONPYCACHEPREFIX"] = os.path.join(os.environ.get("VERIF_TMP", "/var/tmp"), "embverif-pyc-cache")
+    # PYTHONPYCACHEPREFIX is inherited from harness/lib/common.py (byte-code cache)
     exe = os.path.join(common.REPO, "emboss-format")
     n = 0
     for text in texts:
